@@ -363,17 +363,16 @@ def _exc(e):
 
 
 def _to_tchanges(changes):
-    """what a caller patching a tree with a diff passes to commit_tree_changes"""
-    out = []
+    """what a caller patching a tree with a diff passes to commit_tree_changes: every path at most once -- a removal for
+    each path the diff removes and does not install again, then one (path, mode, sha) per installed entry"""
+    removed, added = [], []
     for t, o, n in changes:
-        if t == "delete":
-            out.append((unhx(o[0]), None, None))
-        elif t in ("add", "modify", "copy"):
-            out.append((unhx(n[0]), n[1], n[2].encode()))
-        elif t == "rename":
-            out.append((unhx(o[0]), None, None))
-            out.append((unhx(n[0]), n[1], n[2].encode()))
-    return out
+        if t in ("delete", "modify", "rename"):
+            removed.append(unhx(o[0]))
+        if t in ("add", "modify", "rename", "copy"):
+            added.append((unhx(n[0]), n[1], n[2].encode()))
+    inst = {p for p, _, _ in added}
+    return [(p, None, None) for p in removed if p not in inst] + added
 
 
 RENAME_CONFIGS = [
@@ -430,6 +429,11 @@ def _one_case(c):
     for side in ("a", "b"):
         for inc in (False, True):
             out[f"flat_{side}{int(inc)}"] = [_entry(e) for e in iter_tree_contents(store, ids[side], include_trees=inc)]
+    if ids["a"] is not None:
+        try:
+            out["rt_a"] = commit_tree(store, [(e.path, e.sha, e.mode) for e in iter_tree_contents(store, ids["a"])]).decode()
+        except Exception as e:
+            out["rt_a"] = _exc(e)
     ch = {}
     filters = [None] + [[unhx(p) for p in f] for f in c.get("filters", [])]
     combos = FLAG_COMBOS if c.get("full", True) else ["000", "001"]
@@ -603,16 +607,11 @@ def ref_apply(changes, listing):
 
 
 def ref_tchanges(changes):
-    out = []
-    for t, o, n in changes:
-        if t == "delete":
-            out.append((o[0], None, None))
-        elif t in ("add", "modify", "copy"):
-            out.append((n[0], n[1], n[2]))
-        elif t == "rename":
-            out.append((o[0], None, None))
-            out.append((n[0], n[1], n[2]))
-    return out
+    """normal form of a diff as a commit_tree_changes argument (every path at most once), see _to_tchanges"""
+    removed = [o[0] for t, o, n in changes if t in ("delete", "modify", "rename")]
+    added = [(n[0], n[1], n[2]) for t, o, n in changes if t in ("add", "modify", "rename", "copy")]
+    inst = {p for p, _, _ in added}
+    return [(p, None, None) for p in removed if p not in inst] + added
 
 
 def change_path(c):
@@ -899,3 +898,656 @@ def gen_lookups(rng, a):
             out.add(p.replace(b"/", b"//"))
     out.add(b"/")
     return sorted(out)
+
+
+# ------------------------------------------------------------------------------------------------
+# evaluation of a batch of cases: model vs implementation variants + direct oracle
+
+EXC_MAP = {"KeyError": "err key", "AssertionError": "err nottree", "NotTreeError": "err nottree",
+           "SubmoduleEncountered": "err submodule", "ValueError": "err value"}
+
+
+def case_json(c):
+    return {"tag": c.get("tag"), "a": jl(c["a"]), "b": jl(c["b"]), "filters": [[hx(p) for p in f] for f in c.get("filters", [])],
+            "lookups": [hx(p) for p in c.get("lookups", [])], "full": c.get("full", True),
+            "tchanges": [[[hx(p), m, i] for p, m, i in t] for t in c.get("tchanges", [])]}
+
+
+def case_from_json(j):
+    return {"tag": j.get("tag"), "a": unjl(j["a"]), "b": unjl(j["b"]),
+            "filters": [[unhx(p) for p in f] for f in j.get("filters", [])],
+            "lookups": [unhx(p) for p in j.get("lookups", [])], "full": j.get("full", True),
+            "tchanges": [[(unhx(p), m, i) for p, m, i in t] for t in j.get("tchanges", [])]}
+
+
+def dir_replaced_by_file(a, b) -> bool:
+    """some non-directory path of b is a proper directory prefix of a path of a"""
+    fb = {comps(p) for p, _, _ in (b or [])}
+    for p, _, _ in (a or []):
+        c = comps(p)
+        if any(c[:k] in fb for k in range(1, len(c))):
+            return True
+    return False
+
+
+def gitlink_modified(a, b) -> bool:
+    """some path is a gitlink in both listings with different ids"""
+    da = {p: i for p, m, i in (a or []) if m == GITLINK}
+    return any(m == GITLINK and p in da and da[p] != i for p, m, i in (b or []))
+
+
+def evaluate(ctx, stream, cases, workers, git=None, git_every=0):
+    CH = 40
+    for s in range(0, len(cases), CH):
+        chunk = cases[s:s + CH]
+        req = {"mod": MOD, "op": "cases", "args": {"cases": [case_json(c) for c in chunk]}}
+        reps = {}
+        for v, wk in workers.items():
+            r = wk.ask(req, timeout=600)
+            if "r" not in r:
+                # isolate the crashing case
+                rs = []
+                for c in chunk:
+                    r1 = wk.ask({"mod": MOD, "op": "cases", "args": {"cases": [case_json(c)]}}, timeout=120)
+                    if "r" in r1:
+                        rs.append(r1["r"][0])
+                    else:
+                        rs.append(None)
+                        ctx.oracle_fail(stream, {"variant": v, **case_json(c)}, f"real code crashed/raised outside the adapters: {r1}",
+                                        f"crash:{r1.get('exc') or r1.get('crash')}")
+                reps[v] = rs
+            else:
+                reps[v] = r["r"]
+        vs = list(reps)
+        primary = vs[0]
+        # model
+        lines, index = [], []
+        for ci, c in enumerate(chunk):
+            res = reps[primary][ci]
+            if res is None:
+                continue
+            A, B = enc_listing(c["a"]), enc_listing(c["b"])
+
+            def add(kind, key, line, want=None):
+                lines.append(line)
+                index.append((ci, kind, key, want))
+            if c["a"] is not None:
+                add("commit", "a", f"c12.commit {A}")
+            if c["b"] is not None:
+                add("commit", "b", f"c12.commit {B}")
+            if res.get("failed"):
+                continue
+            for side, tok in (("a", A), ("b", B)):
+                for inc in (0, 1):
+                    add("flatten", f"flat_{side}{inc}", f"c12.flatten {tok} {inc}")
+            filters = [None] + c.get("filters", [])
+            for key in res["changes"]:
+                fl, fi = key.split("/")
+                add("changes", key, f"c12.changes {A} {B} {fl} {enc_filter(filters[int(fi)])}")
+            # the specification function applyChanges on what the real code returned
+            for key in ("000/0", "001/0", "010/0", "011/0", "100/0", "110/0"):
+                chg = res["changes"].get(key)
+                if isinstance(chg, list):
+                    inc = key[1]
+                    add("apply", ("changes", key), f"c12.apply {enc_listing(unj_entries(res['flat_a' + inc]))} {enc_changes(unj_changes(chg))}")
+            for key, chg in res.get("rename", {}).items():
+                if isinstance(chg, list):
+                    inc = key.split("/")[1][1]
+                    add("apply", ("rename", key), f"c12.apply {enc_listing(unj_entries(res['flat_a' + inc]))} {enc_changes(unj_changes(chg))}")
+            if c["a"] is not None:
+                for k in ("000", "001", "rename"):
+                    src = res["changes"].get(k + "/0") if k != "rename" else res.get("rename", {}).get("default/00")
+                    if isinstance(src, list) and k in res.get("ctc", {}):
+                        tcs = ref_tchanges(unj_changes(src))
+                        add("ctc", k, f"c12.ctc {A} {enc_tchanges(tcs)}")
+                        add("tchanges", k, f"c12.tchanges {enc_changes(unj_changes(src))}", enc_tchanges(tcs))
+                for k, tcs in enumerate(c.get("tchanges", [])):
+                    add("ctc", f"x{k}", f"c12.ctc {A} {enc_tchanges(tcs)}")
+                for p in c.get("lookups", []):
+                    add("lookup", hx(p), f"c12.lookup {A} {hx(p)}")
+        outs = ctx.driver.batch(lines)
+        model = [dict() for _ in chunk]
+        for (ci, kind, key, want), o in zip(index, outs):
+            model[ci][(kind, key)] = o if want is None else (o, want)
+        for ci, c in enumerate(chunk):
+            res = reps[primary][ci]
+            if res is None:
+                continue
+            cj = case_json(c)
+            ctx.count(stream, json.dumps(cj, sort_keys=True), True, c.get("tag"))
+            if len(ctx.samples) < 5 and c["a"] and c["b"] and len(c["a"]) <= 4 and not res.get("failed"):
+                ctx.sample({"stream": stream, "tag": c.get("tag"), "a": [(p.decode("latin1"), oct(m), i[:8]) for p, m, i in c["a"]],
+                            "b": [(p.decode("latin1"), oct(m), i[:8]) for p, m, i in c["b"]],
+                            "tree_changes": [(t, o and o[0], n and n[0]) for t, o, n in
+                                             [(x[0], x[1] and [unhx(x[1][0]).decode("latin1")], x[2] and [unhx(x[2][0]).decode("latin1")])
+                                              for x in res["changes"].get("000/0", [])]]})
+            for v in vs[1:]:
+                if reps[v][ci] is not None and reps[v][ci] != res:
+                    diffk = [k for k in res if reps[v][ci].get(k) != res.get(k)]
+                    ctx.oracle_fail(stream, {"variants": [primary, v], "differs_in": diffk, **cj},
+                                    f"implementation variants {primary} and {v} disagree on {diffk}", "py-rs-divergence")
+            compare_model(ctx, stream, c, cj, res, model[ci], primary)
+            for v in vs:
+                if reps[v][ci] is not None:
+                    oracle_case(ctx, stream, c, cj, reps[v][ci], v)
+            if git is not None and git_every and (s + ci) % git_every == 0:
+                oracle_git(ctx, stream, c, cj, res, git)
+
+
+def compare_model(ctx, stream, c, cj, res, m, variant):
+    def dis(what, model, impl):
+        ctx.disagree(stream + "." + what, cj, model, impl, variant)
+    for side in ("a", "b"):
+        if c[side] is None:
+            continue
+        mo = m.get(("commit", side), "")
+        real = res.get("id_" + side)
+        if not mo.startswith("ok "):
+            # invalid / conflicting listing: outside the model's domain, nothing is compared
+            ctx.count(stream + ".outside-domain", (side, json.dumps(cj["a" if side == "a" else "b"])), False, mo)
+            return
+        _, root, ids, wf = mo.split(" ")
+        if real != root:
+            dis("commit_tree.id", root, real)
+        if wf != "1":
+            dis("commit_tree.wf", "model tree not well-formed", wf)
+        if side == "a" and isinstance(real, str):
+            if set(ids.split(",")) != set(res["trees_a"]):
+                dis("commit_tree.trees", sorted(set(ids.split(","))), sorted(res["trees_a"]))
+    if res.get("failed"):
+        dis("commit_tree.raises", "ok", {k: res[k] for k in ("id_a", "id_b")})
+        return
+    for side in ("a", "b"):
+        for inc in (0, 1):
+            k = f"flat_{side}{inc}"
+            mo = m.get(("flatten", k))
+            real = "ok " + enc_listing(unj_entries(res[k]))
+            if mo != real:
+                dis(f"iter_tree_contents.{inc}", mo, real)
+    for key, chg in res["changes"].items():
+        mo = m.get(("changes", key))
+        real = "ok " + enc_changes(unj_changes(chg)) if isinstance(chg, list) else f"exc {chg}"
+        if mo != real:
+            dis(f"tree_changes[{key.split('/')[0]}{'+paths' if not key.endswith('/0') else ''}]", mo, real)
+    for (kind, key), mo in m.items():
+        if kind == "apply":
+            which, k = key
+            inc = k[1] if which == "changes" else k.split("/")[1][1]
+            want = "ok " + enc_listing(unj_entries(res["flat_b" + inc]))
+            if mo != want:
+                dis(f"applyChanges[{which}:{k}]", mo, want)
+        elif kind == "ctc":
+            real = res["ctc"].get(key)
+            if isinstance(real, dict):
+                realc = EXC_MAP.get(real["exc"], "exc " + real["exc"])
+                if mo != realc:
+                    dis(f"commit_tree_changes[{key}]", mo, realc)
+            else:
+                if not mo.startswith("ok ") or mo.split(" ")[1] != real:
+                    dis(f"commit_tree_changes[{key}]", mo, real)
+                elif key.startswith("x"):
+                    want = enc_listing(unj_entries(res["ctc"][key + "_flat"]))
+                    if mo.split(" ")[2] != want:
+                        dis(f"commit_tree_changes[{key}].flat", mo, want)
+        elif kind == "tchanges":
+            if mo[0] != mo[1]:
+                dis("toTChanges", mo[0], mo[1])
+        elif kind == "lookup":
+            real = res["lookups"].get(key)
+            realc = f"ok {real[0]} {real[1]}" if isinstance(real, list) else EXC_MAP.get(real["exc"], "exc " + real["exc"])
+            if mo != realc:
+                dis("tree_lookup_path", {"path": key, "model": mo}, realc)
+
+
+def oracle_case(ctx, stream, c, cj, res, v):
+    """the property's own words on what the real code returned (independent of the model)"""
+    cj = {"variant": v, **cj}
+
+    def fail(what, cls):
+        ctx.oracle_fail(stream, cj, what, cls)
+    a, b = c["a"], c["b"]
+    va, vb = (a is None or valid_listing(a)), (b is None or valid_listing(b))
+    if not (va and vb):
+        return
+    if res.get("failed"):
+        fail(f"commit_tree raised on a valid listing: {res.get('id_a')} {res.get('id_b')}", "commit_tree:raises")
+        return
+    # build / flatten are inverse; ids are the Merkle hashes of canonically ordered entries
+    for side, l in (("a", a), ("b", b)):
+        if l is None:
+            continue
+        flat = unj_entries(res[f"flat_{side}0"])
+        if sorted(flat) != sorted(l) or len(flat) != len(l):
+            fail(f"iter_tree_contents(commit_tree(L)) != L as a set (side {side})", "flatten-build")
+        root, trees = ref_tree_ids(l)
+        if res["id_" + side] != root:
+            fail(f"commit_tree id {res['id_' + side]} != reference Merkle id {root} (side {side})", "tree-id")
+    if a is not None:
+        if res.get("rt_a") != res["id_a"]:
+            fail(f"commit_tree(iter_tree_contents(t)) = {res.get('rt_a')} != t = {res['id_a']}", "build-flatten")
+        root, trees = ref_tree_ids(a)
+        for tid, raw in res["trees_a"].items():
+            ents = parse_raw_tree(unhx(raw))
+            keys = [n + b"/" if m == DIR else n for n, m, i, _ in ents]
+            if any(k1 >= k2 for k1, k2 in zip(keys, keys[1:])):
+                fail(f"tree {tid} is not stored in git's canonical order", "canonical-order")
+            if hashlib.sha1(b"tree %d\0" % len(unhx(raw)) + unhx(raw)).hexdigest() != tid:
+                fail(f"tree {tid}: id is not the hash of its serialisation", "tree-id")
+            if tid not in trees or [(n, m, i) for n, m, i, _ in ents] != trees[tid]:
+                fail(f"tree {tid}: entries differ from the reference nesting of the listing", "tree-entries")
+            if any(mt.startswith(b"0") for _, _, _, mt in ents):
+                fail(f"tree {tid}: mode serialised with a leading zero", "tree-mode-text")
+        if set(res["trees_a"]) != set(trees):
+            fail("set of tree objects differs from the reference nesting", "tree-entries")
+    # diff: sound + complete, each path at most once, flag consistency
+    for key, chg in res["changes"].items():
+        fl, fi = key.split("/")
+        if not isinstance(chg, list):
+            fail(f"tree_changes[{key}] raised {chg}", f"tree_changes:raises:{chg.get('exc')}")
+            continue
+        chg = unj_changes(chg)
+        if fi == "0":
+            fa = unj_entries(res["flat_a" + fl[1]])
+            fb = unj_entries(res["flat_b" + fl[1]])
+            img = ref_apply(chg, fa)
+            if img != {p: (m, i) for p, m, i in fb}:
+                fail(f"applying tree_changes[{fl}] to flatten(a) does not give flatten(b)", f"diff-image:{fl}")
+            olds = [o[0] for t, o, n in chg if t in ("delete", "modify", "rename", "unchanged")]
+            news = [n[0] for t, o, n in chg if t in ("add", "modify", "rename", "copy", "unchanged")]
+            if len(set(olds)) != len(olds) or len(set(news)) != len(news):
+                fail(f"tree_changes[{fl}] mentions a path more than once on one side", f"path-twice:{fl}")
+            if fl[2] == "1":
+                allp = [change_path(x) for x in chg]
+                if len(set(allp)) != len(allp):
+                    fail(f"tree_changes[{fl}] (change_type_same) mentions a path more than once", f"path-twice:{fl}")
+            da, db = {p: (m, i) for p, m, i in fa}, {p: (m, i) for p, m, i in fb}
+            for t, o, n in chg:
+                ok = True
+                if t == "unchanged":
+                    ok = fl[0] == "1" and o == n and da.get(o[0]) == o[1:] and db.get(n[0]) == n[1:]
+                elif t == "modify":
+                    ok = o[0] == n[0] and o != n and da.get(o[0]) == o[1:] and db.get(n[0]) == n[1:]
+                elif t == "delete":
+                    ok = n is None and da.get(o[0]) == o[1:]
+                elif t == "add":
+                    ok = o is None and db.get(n[0]) == n[1:]
+                else:
+                    ok = False
+                if not ok:
+                    fail(f"tree_changes[{fl}] reports a change that is not one: {t} {o} {n}", f"bogus-change:{fl}")
+                    break
+            if fl[0] == "1":
+                base = res["changes"].get("0" + fl[1:] + "/0")
+                if isinstance(base, list) and [x for x in chg if x[0] != "unchanged"] != unj_changes(base):
+                    fail(f"want_unchanged changes the reported differences [{fl}]", f"want-unchanged:{fl}")
+        else:
+            flt = c["filters"][int(fi) - 1]
+            full = res["changes"].get(fl + "/0")
+            if isinstance(full, list):
+                full = unj_changes(full)
+                if any(x not in full for x in chg):
+                    fail(f"tree_changes[{fl}] with paths={flt} reports a change the unfiltered diff does not", f"filter-unsound:{fl}")
+                extra = [x for x in chg if not matches_filter(change_path(x), flt)
+                         and not any(f.startswith(change_path(x) + b"/") or change_path(x) == b"" for f in flt)]
+                if extra:
+                    fail(f"tree_changes[{fl}] with paths={flt} reports a path that is neither at/under nor above a filter path: {extra[0]}",
+                         f"filter-extra:{fl}")
+                missing = [x for x in full if matches_filter(change_path(x), flt) and x not in chg]
+                if missing:
+                    fail(f"tree_changes[{fl}] with paths={flt} drops a change at/under a filter path: {missing[0]}", f"filter-incomplete:{fl}")
+    # rename / copy detection: only the image is constrained
+    for key, chg in res.get("rename", {}).items():
+        if not isinstance(chg, list):
+            cls = f"rename:raises:{chg.get('exc')}"
+            if chg.get("exc") == "KeyError" and key.startswith("rewrite") and gitlink_modified(a, b):
+                cls = "rename:rewrite-threshold:gitlink-modified"
+            fail(f"RenameDetector[{key}] raised {chg}", cls)
+            continue
+        chg = unj_changes(chg)
+        inc = key.split("/")[1][1]
+        fa = unj_entries(res["flat_a" + inc])
+        fb = unj_entries(res["flat_b" + inc])
+        if ref_apply(chg, fa) != {p: (m, i) for p, m, i in fb}:
+            fail(f"applying the RenameDetector[{key}] changes to flatten(a) does not give flatten(b)", f"rename-image:{key.split('/')[0]}")
+        news = [n[0] for t, o, n in chg if t in ("add", "modify", "rename", "copy")]
+        if len(set(news)) != len(news):
+            fail(f"RenameDetector[{key}] installs a path more than once", f"rename-path-twice:{key.split('/')[0]}")
+    # patching == rebuilding
+    if a is not None and b is not None:
+        for k, r in res.get("ctc", {}).items():
+            if k.startswith("x"):
+                continue
+            if isinstance(r, dict):
+                cls = f"ctc:{r['exc']}"
+                if r["exc"] in ("AssertionError", "KeyError") and dir_replaced_by_file(a, b):
+                    cls = "ctc:dir-replaced-by-file"
+                fail(f"commit_tree_changes(a, tree_changes[{k}](a, b)) raised {r['exc']} (rebuilding gives {res['id_b']})", cls)
+            elif r != res["id_b"]:
+                fail(f"commit_tree_changes(a, tree_changes[{k}](a, b)) = {r} != commit_tree(b) = {res['id_b']}", f"ctc:wrong-tree:{k}")
+        if res.get("a_intact") is not True:
+            fail("commit_tree_changes changed the tree object stored under the original id", "ctc:store-mutated")
+
+
+def oracle_git(ctx, stream, c, cj, res, git):
+    a, b = c["a"], c["b"]
+    if res.get("failed") or not ((a is None or valid_listing(a)) and (b is None or valid_listing(b))):
+        return
+    gids = {}
+    for side, l in (("a", a), ("b", b)):
+        if l is None:
+            continue
+        gids[side] = git.tree_of_listing(l)
+        ctx.count(stream + ".cgit.mktree", (side, json.dumps(cj[side])), True)
+        if gids[side] != res["id_" + side]:
+            ctx.oracle_fail(stream, {"side": side, **cj}, f"commit_tree id {res['id_' + side]} != git mktree id {gids[side]}", "tree-id:cgit")
+    if a is not None:
+        for tid, raw in list(res["trees_a"].items())[:4]:
+            ents = [(n, m, i) for n, m, i, _ in parse_raw_tree(unhx(raw))]
+            g = git.mktree(list(reversed(ents)))
+            if g != tid:
+                ctx.oracle_fail(stream, {"tree": tid, **cj}, f"git mktree of the same entries gives {g}, dulwich stored {tid}", "tree-id:cgit")
+    if any(m == GROUPW for p, m, i in (a or []) + (b or [])):
+        return  # C git reads the legacy mode 100664 as 100644 (canon_mode) and so sees no mode change
+    if a is not None and b is not None:
+        raw = set(git.diff_tree(gids["a"], gids["b"]))
+        ctx.count(stream + ".cgit.diff-tree", json.dumps(cj, sort_keys=True), True, f"{len(raw)} lines")
+        for fl in ("000", "001"):
+            chg = res["changes"].get(fl + "/0")
+            if isinstance(chg, list):
+                exp = git_expected_from_changes(unj_changes(chg))
+                if exp != raw:
+                    ctx.oracle_fail(stream, {"flags": fl, "git_only": sorted(map(repr, raw - exp))[:5], "dulwich_only": sorted(map(repr, exp - raw))[:5], **cj},
+                                    f"tree_changes[{fl}] differs from git diff-tree -r --raw -z --no-renames", f"diff-vs-cgit:{fl}")
+
+
+# ------------------------------------------------------------------------------------------------
+# streams
+
+def make_workers(ctx):
+    workers = {"py": core.Worker("py", mem_mb=2048)}
+    ov = core.rust_overlay()
+    if ov is not None:
+        workers["rs"] = core.Worker("rs", overlay=ov, mem_mb=2048)
+    else:
+        ctx.notes.append("cargo build failed: Rust variant not exercised (see .cache/cargo.log)")
+        ctx.disagree("rust.build", {}, "builds", "cargo build failed", "rs")
+    return workers
+
+
+def gen_tchanges(rng, a):
+    """a change list for commit_tree_changes that is NOT derived from a diff: adds, overwrites, deletes of present and
+    absent paths, changes below files (error behaviour is part of the model)"""
+    paths = sorted({p for p, _, _ in (a or [])})
+    out = []
+    for _ in range(rng.choice([1, 2, 3, 5])):
+        r = rng.random()
+        if r < 0.35 and paths:
+            out.append((rng.choice(paths), None, None))
+        elif r < 0.45:
+            out.append((gen_path(rng), None, None))
+        elif r < 0.55 and paths:
+            out.append((rng.choice(paths) + b"/" + rng.choice(COMPS), *gen_leaf(rng)))
+        elif r < 0.65 and paths:
+            c = comps(rng.choice(paths))
+            out.append((b"/".join(c[:rng.randint(1, len(c))]), *gen_leaf(rng)))
+        else:
+            out.append((gen_path(rng), *gen_leaf(rng)))
+    return out
+
+
+def make_case(rng, tag, a, b, full=True):
+    return {"tag": tag, "a": a, "b": b, "filters": gen_filters(rng, a, b) if full else [], "full": full,
+            "lookups": gen_lookups(rng, a) if full else [], "tchanges": [gen_tchanges(rng, a)] if full and a is not None else []}
+
+
+def _stream_sha1(ctx):
+    rng = ctx.rng
+    msgs = [b"", b"abc"] + [rng.randbytes(n) for n in (1, 54, 55, 56, 57, 63, 64, 65, 119, 120, 127, 128, 129, 1000)]
+    msgs += [rng.randbytes(rng.randint(0, 300)) for _ in range(ctx.budget(40))]
+    outs = ctx.driver.batch([f"c12.sha1 {hx(m)}" for m in msgs])
+    for m, o in zip(msgs, outs):
+        ctx.count("sha1", m, True, f"len%64={len(m) % 64 // 8 * 8}+")
+        if o != hashlib.sha1(m).hexdigest():
+            ctx.disagree("sha1", {"msg": hx(m)}, o, hashlib.sha1(m).hexdigest())
+
+
+def _stream_merge(ctx, workers):
+    """_merge_entries: model vs pure Python vs Rust on name sets that differ exactly where '/' sorts"""
+    rng = ctx.rng
+    names = [b"a", b"a.b", b"a-", b"a0", b"a.", b"b", b"ab", b"a b", b"A", b"\xff", b"a\x01", b"B"]
+    cases = []
+    for _ in range(ctx.budget(250)):
+        def side():
+            ns = rng.sample(names[:8] if rng.random() < 0.8 else names, rng.randint(0, 6))
+            return [(n, rng.choice([REG, EXE, LNK, GITLINK, DIR]), rng.choice(POOL_IDS)) for n in ns]
+        e1, e2 = side(), side()
+        if rng.random() < 0.3 and e1:
+            e2 = list(e1)
+            rng.shuffle(e2)
+            if e2 and rng.random() < 0.7:
+                k = rng.randrange(len(e2))
+                e2[k] = (e2[k][0], rng.choice([REG, DIR]), rng.choice(POOL_IDS))
+        cases.append((rng.choice([b"", b"a", b"a/b", b"a.b/a-"]), e1, e2))
+    lines = []
+    for path, e1, e2 in cases:
+        def tok(es):
+            return "." if not es else ",".join(f"{hx(n)}:{m}:{i}" for n, m, i in sorted(es))
+        lines.append(f"c12.merge {tok(e1)} {tok(e2)}")
+    outs = ctx.driver.batch(lines)
+    req = {"mod": MOD, "op": "merge", "args": {"cases": [[hx(p), [[hx(n), m, i] for n, m, i in e1], [[hx(n), m, i] for n, m, i in e2]]
+                                                            for p, e1, e2 in cases]}}
+    for v, wk in workers.items():
+        rep = wk.ask(req, timeout=300)
+        if "r" not in rep:
+            ctx.oracle_fail("merge", {"variant": v}, f"_merge_entries crashed: {rep}", f"merge-crash:{v}")
+            continue
+        for (path, e1, e2), mo, real in zip(cases, outs, rep["r"]):
+            import posixpath
+            # model output carries names; the real one full paths posixpath.join(path, name)
+            items = []
+            for x, y in real:
+                def sd(e):
+                    return "~" if e is None else f"{e[1]};{e[2]}"
+                full = unhx((x or y)[0])
+                items.append((full, sd(x), sd(y)))
+            mitems = [] if mo == "." else [tuple(it.split(":")) for it in mo.split(",")]
+            mfull = [(posixpath.join(path, unhx(n)), l, r) for n, l, r in mitems]
+            ctx.count("merge", (v, path, tuple(e1), tuple(e2)), True, f"{v}:{min(len(e1), 3)}x{min(len(e2), 3)}")
+            if mfull != items:
+                ctx.disagree("merge", {"path": hx(path), "e1": [[hx(n), m, i] for n, m, i in e1], "e2": [[hx(n), m, i] for n, m, i in e2]},
+                             mfull, items, v)
+            # direct oracle: every name of either side exactly once, paired iff in both
+            n1, n2 = {n: (m, i) for n, m, i in e1}, {n: (m, i) for n, m, i in e2}
+            seen = []
+            for x, y in real:
+                full = unhx((x or y)[0])
+                seen.append(full)
+            want = sorted(posixpath.join(path, n) for n in set(n1) | set(n2))
+            if sorted(seen) != want:
+                ctx.oracle_fail("merge", {"variant": v, "path": hx(path), "e1": [[hx(n), m, i] for n, m, i in e1], "e2": [[hx(n), m, i] for n, m, i in e2]},
+                                "_merge_entries does not mention every name exactly once", f"merge-names:{v}")
+
+
+def alphabet_listings(paths, leaves):
+    out = []
+    for combo in itertools.product([None] + leaves, repeat=len(paths)):
+        l = [(p, m, i) for p, x in zip(paths, combo) if x is not None for m, i in [x]]
+        if valid_listing(l):
+            out.append(l)
+    return out
+
+
+def _stream_alphabet(ctx, workers):
+    """every ordered pair of valid listings over the property's conflict alphabet (reduced op set)"""
+    rng = ctx.rng
+    leaves = [(REG, POOL_IDS[1]), (EXE, POOL_IDS[2]), (LNK, POOL_IDS[7])]
+    if ctx.thorough:
+        paths = [b"a", b"a/b", b"a.b", b"a-", b"a0"]
+        leaves = leaves[:2]
+    else:
+        paths = [b"a", b"a/b", b"a.b", b"a0"]
+        leaves = leaves[:2]
+    ls = alphabet_listings(paths, leaves)
+    pairs = [(x, y) for x in ls for y in ls]
+    limit = ctx.budget(700, mult=10)
+    if len(pairs) > limit:
+        pairs = rng.sample(pairs, limit)
+    cases = [make_case(rng, "alphabet", a, b, full=False) for a, b in pairs]
+    ctx.extra_cov["alphabet"] = {"paths": [p.decode() for p in paths], "listings": len(ls), "pairs": len(cases)}
+    evaluate(ctx, "alphabet", cases, workers)
+
+
+def _stream_pairs(ctx, workers, git, n=None, stream="pairs"):
+    rng = ctx.rng
+    n = ctx.budget(450) if n is None else n
+    cases = []
+    fixed = [
+        ("fixed:empty", [], []),
+        ("fixed:none-a", None, [(b"a", REG, POOL_IDS[1])]),
+        ("fixed:none-b", [(b"a/b", REG, POOL_IDS[1])], None),
+        ("fixed:slash-order", [(b"a/b", REG, POOL_IDS[1]), (b"a.b", REG, POOL_IDS[2]), (b"a-", REG, POOL_IDS[3]), (b"a0", REG, POOL_IDS[4])],
+         [(b"a", REG, POOL_IDS[1]), (b"a.b", REG, POOL_IDS[2]), (b"a-", REG, POOL_IDS[3]), (b"a0", EXE, POOL_IDS[4])]),
+        ("fixed:empty-dir-after-delete", [(b"a/b/c", REG, POOL_IDS[1]), (b"b", REG, POOL_IDS[2])], [(b"b", REG, POOL_IDS[2])]),
+        ("fixed:identical-subtrees", [(b"a/x", REG, POOL_IDS[1]), (b"b/x", REG, POOL_IDS[1]), (b"c", REG, POOL_IDS[2])],
+         [(b"a/x", REG, POOL_IDS[1]), (b"b/x", REG, POOL_IDS[1]), (b"c", LNK, POOL_IDS[2])]),
+        ("fixed:dir-rename", [(b"a/x", REG, POOL_IDS[3]), (b"a/y", REG, POOL_IDS[4])], [(b"b/x", REG, POOL_IDS[3]), (b"b/y", REG, POOL_IDS[4])]),
+    ]
+    for tag, a, b in fixed:
+        cases.append(make_case(rng, tag, a, b))
+    for _ in range(n):
+        tag, a, b = gen_pair(rng)
+        if rng.random() < 0.02:
+            a = None
+        elif rng.random() < 0.02:
+            b = None
+        cases.append(make_case(rng, tag, a, b))
+    git_every = max(1, len(cases) // (ctx.budget(60, mult=5))) if git is not None else 0
+    evaluate(ctx, stream, cases, workers, git, git_every)
+
+
+def _stream_invalid(ctx, workers):
+    """listings outside ValidListing (file/directory conflicts, duplicates, empty components): the model answers
+    `conflict`/`invalid`; what the real code does is recorded, not compared (commit_tree resolves conflicts
+    silently through its side table of dicts; `a//b` recurses without bound)."""
+    rng = ctx.rng
+    ls = [[(b"a", REG, POOL_IDS[1]), (b"a/b", REG, POOL_IDS[2])],
+          [(b"a/b", REG, POOL_IDS[2]), (b"a", REG, POOL_IDS[1])],
+          [(b"a/b", REG, POOL_IDS[2]), (b"a", REG, POOL_IDS[1]), (b"a/c", REG, POOL_IDS[3])],
+          [(b"a", REG, POOL_IDS[1]), (b"a", EXE, POOL_IDS[2])],
+          [(b"", REG, POOL_IDS[1])], [(b"a/", REG, POOL_IDS[1])], [(b"/a", REG, POOL_IDS[1])]]
+    outs = ctx.driver.batch([f"c12.commit {enc_listing(l)}" for l in ls])
+    rec = []
+    for l, mo in zip(ls, outs):
+        rep = workers["py"].ask({"mod": MOD, "op": "cases", "args": {"cases": [case_json(make_case(rng, "invalid", l, l, full=False))]}}, timeout=60)
+        real = rep.get("r", [rep])[0]
+        flat = real.get("flat_a0") if isinstance(real, dict) else None
+        ctx.count("invalid", repr(l), False, mo.split(" ")[0])
+        rec.append({"listing": [(p.decode(), oct(m)) for p, m, i in l], "model": mo.split(" ")[0], "valid_listing": valid_listing(l),
+                    "real": "raises " + str(real.get("id_a")) if isinstance(real, dict) and real.get("failed") else
+                            ("flatten -> " + str([unhx(e[0]).decode() for e in flat]) if flat is not None else str(real)[:80])})
+        if valid_listing(l) != mo.startswith("ok"):
+            if not (mo.startswith("ok") and len({p for p, _, _ in l}) != len(l)):  # exact duplicates: last wins in both
+                ctx.disagree("invalid.domain", {"listing": jl(l)}, mo, f"valid_listing={valid_listing(l)}")
+    ctx.extra_cov["outside_domain_behaviour"] = rec
+
+
+def _run_corpus(ctx, workers):
+    d = core.VERIF / "corpus" / "C12"
+    if not d.exists():
+        return
+    cases = []
+    for f in sorted(d.glob("*.json")):
+        j = json.loads(f.read_text())
+        c = case_from_json(j["case"] if "case" in j else j)
+        c["tag"] = "corpus:" + f.stem
+        cases.append(c)
+    if cases:
+        evaluate(ctx, "corpus", cases, workers)
+
+
+def run(ctx: core.Ctx):
+    workers = make_workers(ctx)
+    ctx.assumptions += [
+        "object hash: the theorems take the tree hash H as a parameter (injectivity is an explicit hypothesis where pruning "
+        "needs it); the driver instantiates it with a SHA-1 written in the model file and compared with hashlib each run",
+        "rename/copy detection is not modelled: any pairing function preserves the patch image (theorem); the real "
+        "RenameDetector is checked on its image only, under 5 configurations",
+        "patch semantics of a change list: all removals (delete/modify/rename old side) first, then all installations "
+        "(add/modify/rename/copy new side); 'each path at most once' is read per side (a type change reported as "
+        "delete+add names the path once as old and once as new) and overall when change_type_same=True",
+        "tree_changes vs C git is compared as a set of raw lines (dulwich walks in name order, git in tree order); "
+        "delete+add of one path is C git's single T line",
+    ]
+    try:
+        w = {k: v.ask({"mod": MOD, "op": "which"}) for k, v in workers.items()}
+        ctx.extra_cov["variants"] = {k: v.get("r") for k, v in w.items()}
+        git = Git(ctx)
+        _stream_sha1(ctx)
+        _run_corpus(ctx, workers)
+        _stream_merge(ctx, workers)
+        _stream_invalid(ctx, workers)
+        _stream_alphabet(ctx, workers)
+        _stream_pairs(ctx, workers, git)
+        ctx.extra_cov["cgit_calls"] = git.calls
+    finally:
+        for v in workers.values():
+            v.close()
+
+
+def search(ctx: core.Ctx):
+    """failing-input search after a broken obligation / correspondence: the direct oracle on a larger fresh sample and on
+    the neighbourhood (single mutations) of every disagreeing case"""
+    workers = make_workers(ctx)
+    rng = ctx.rng
+    try:
+        git = Git(ctx)
+        cases = []
+        for dgr in ctx.disagreements[:40]:
+            cj = dgr.get("case") or {}
+            if "a" not in cj:
+                continue
+            base = case_from_json(cj)
+            cases.append(base)
+            for _ in range(10):
+                if base["a"] is None or base["b"] is None:
+                    break
+                d = {p: (m, i) for p, m, i in base["b"]}
+                mutate(rng, d)
+                cases.append(make_case(rng, "search:neigh", base["a"], to_listing(rng, d)))
+        if cases:
+            evaluate(ctx, "search", cases, workers, git, 3)
+        if ctx.oracle_failures:
+            return
+        _stream_pairs(ctx, workers, git, n=ctx.budget(600), stream="search")
+        if ctx.oracle_failures:
+            return
+        _stream_alphabet(ctx, workers)
+    finally:
+        for v in workers.values():
+            v.close()
+
+
+def replay(ctx: core.Ctx, data: dict) -> int:
+    cj = data.get("case", data)
+    if "a" not in cj:
+        print("replay: no concrete case in this file (broken obligation without failing input):", data.get("no_longer_checks"))
+        return 1
+    c = case_from_json(cj)
+    workers = make_workers(ctx)
+    try:
+        git = Git(ctx)
+        evaluate(ctx, "replay", [c], workers, git, 1)
+        for f in ctx.oracle_failures:
+            print("replay: oracle failure:", f["what"], "| class:", f["class"])
+        for k, n in ctx.known_hit.items():
+            print(f"replay: matches known finding {k} ({n}x)")
+        for dgr in ctx.disagreements[:5]:
+            print("replay: model/implementation disagreement:", dgr["stream"], str(dgr["model"])[:200], "!=", str(dgr["impl"])[:200])
+        if ctx.oracle_failures:
+            print(f"VIOLATION property=C12 replay={data.get('_path', '<replayed>')}")
+            return 1
+        print("replay: property holds on this case" + (" (known finding reproduced)" if ctx.known_hit else ""))
+        return 0
+    finally:
+        for v in workers.values():
+            v.close()
